@@ -578,6 +578,92 @@ def resolveTwice (cfg : Cfg) (ops : List (Bytes × CVal)) (tags : List Bytes) : 
   let l0 : Layers := ⟨[], cfg⟩
   (tags.map (processL l0), tags.map (processL (l0.setAll ops)))
 
+/-! ### sources merged after the start (ninth round): SetConfig / AddLoaders + Initialize on the DEFAULT configure
+
+  configure/configure.go:21-26               Default(): the viper binder for yaml ITSELF is the binder (C16_code_configure_Default)
+  configure/configure.go:41-74               Initialize / loadConfigure: every loader of the list, in order, `Binder.SetConfig(bytes)`
+  configure/binder/viper.go:27-33            SetConfig = viper.MergeConfig
+  github.com/spf13/viper@v1.19.0 viper.go    MergeConfig / MergeConfigMap (1696-1715: insensitiviseMap, mergeMaps INTO v.config),
+                                             mergeMaps (1878-1953)
+  The binder has no reset and remembers no lookup: the documents layer is what all merges so far made of it, a lookup
+  (`Layers.get`) is a function of the two layers as they are NOW. -/
+
+/-- the body of mergeMaps' loop for one source entry `(k, dflt)`: key absent → `tgt[sk] = sv`; present → the entry
+    becomes `f (old value)` -/
+def updKv (f : CVal → CVal) (k : Bytes) (dflt : CVal) : Cfg → Cfg
+  | [] => [(k, dflt)]
+  | (k', v') :: a => if k' = k then (k', f v') :: a else (k', v') :: updKv f k dflt a
+
+mutual
+  /-- viper mergeMaps for one key (viper.go:1879-1952), first argument = target (what the binder holds), second = source:
+      target a map → recurse when the source value is a map too, otherwise `continue` (THE TARGET MAP IS KEPT); any other
+      target value (nil included) → replaced by the source value -/
+  def mergeVal : CVal → CVal → CVal
+    | .map a, .map b => .map (mergeKvs a b)
+    | .map a, _ => .map a
+    | _, b => b
+  termination_by structural _ s => s
+  /-- the `for sk, sv := range src` loop of mergeMaps -/
+  def mergeKvs : Cfg → Cfg → Cfg
+    | a, [] => a
+    | a, (k, v) :: rest => mergeKvs (updKv (fun t => mergeVal t v) k v a) rest
+  termination_by structural _ s => s
+end
+
+/-- ViperBinder.SetConfig on the documents layer: MergeConfigMap = insensitiviseMap(doc), mergeMaps(doc, v.config) -/
+def mergeDoc (conf doc : Cfg) : Cfg := mergeKvs conf (lowerKeysM doc)
+
+/-- the configure: its binder (two layers) and its loader list (RawLoaders: the documents they return) -/
+structure Conf where
+  layers : Layers
+  loaders : List Cfg
+
+/-- Configure.Initialize: every loader in order (RawLoaders have no Order: SortOrderedComponents keeps their sequence), each
+    document merged into what the binder already holds -/
+def Conf.initialize (c : Conf) : Conf :=
+  { c with layers := { c.layers with conf := c.loaders.foldl mergeDoc c.layers.conf } }
+
+/-- Default(), SetLoaders(RawLoader base), Initialize() -/
+def Conf.start (base : Cfg) : Conf := Conf.initialize ⟨⟨[], []⟩, [base]⟩
+
+inductive Step where
+  | setConfig (doc : Cfg)             -- Configure.SetConfig(bytes): straight to the binder
+  | addLoader (doc : Cfg)             -- Configure.AddLoaders(RawLoader), Configure.Initialize()
+  | set (path : Bytes) (v : CVal)     -- Configure.Set
+
+def Conf.step (c : Conf) : Step → Conf
+  | .setConfig d => { c with layers := { c.layers with conf := mergeDoc c.layers.conf d } }
+  | .addLoader d => Conf.initialize { c with loaders := c.loaders ++ [d] }
+  | .set p v => { c with layers := c.layers.set p v }
+
+def Conf.steps (c : Conf) : List Step → Conf
+  | [] => c
+  | s :: rest => (c.step s).steps rest
+
+/-- a history of sources: the tags resolved after the start, the steps, the tags resolved again — each resolution on a fresh
+    property, under the layers as they are then -/
+def resolveAround (base : Cfg) (steps : List Step) (tags : List Bytes) : List Res × List Res :=
+  let c0 := Conf.start base
+  (tags.map (processL c0.layers), tags.map (processL (c0.steps steps).layers))
+
+/-- the document that says `p: v` and nothing else (`a: {b: {c: v}}` for the path a.b.c) -/
+def pathDoc : List Bytes → CVal → Cfg
+  | [], _ => []
+  | [k], v => [(k, v)]
+  | k :: k2 :: rest, v => [(k, .map (pathDoc (k2 :: rest) v))]
+
+/-- the documents layer holds a MAP at the path (every key on the way leads into a map, the last one too) -/
+def mapAt : Cfg → List Bytes → Bool
+  | _, [] => true
+  | m, k :: rest =>
+    match alookup k m with
+    | some (.map m') => mapAt m' rest
+    | _ => false
+
+def CVal.isMap : CVal → Bool
+  | .map _ => true
+  | _ => false
+
 /-! ### from the tag TEXT (seventh round)
 
   NewProperty (component_definition/property.go:21-33) runs TagArg.Parse over the whole text of the tag: the text before
